@@ -2,7 +2,7 @@
    generated kernels of Gen/KOpsMisc.v) refine the L0 specification of
    Spec/OpsMisc.v, and the specification satisfies the laws the property
    names.  Kernels are consumed through characterising lemmas only. *)
-From Coq Require Import ZArith QArith List Bool String Arith Lia Permutation.
+From Coq Require Import ZArith QArith List Bool String Arith Lia ZifyBool Permutation.
 From DM Require Import Base.PyVal Spec.Nf Spec.OpsMisc Gen.KOpsMisc Model.Store Model.OpsMisc Proofs.NfFacts.
 Import ListNotations.
 Open Scope Z_scope.
@@ -10,26 +10,25 @@ Open Scope Z_scope.
 (* ================================================================ kernels *)
 Lemma k_weight_bad_ok b w : k_weight_bad b w = false <-> (b = true /\ 0 <= w).
 Proof.
-  unfold k_weight_bad. destruct b; simpl.
-  - rewrite Z.ltb_ge. split; [intros; split; auto | intros [_ H]; exact H].
-  - split; [discriminate | intros [H _]; discriminate].
+  unfold k_weight_bad. destruct b; split; intros H; try split; try reflexivity; try lia;
+    destruct H as [H1 H2]; try discriminate; lia.
 Qed.
-Lemma k_weight_len_id n : k_weight_len n = n. Proof. reflexivity. Qed.
-Lemma k_weight_reps_id w : k_weight_reps w = w. Proof. reflexivity. Qed.
-Lemma k_weight_dst_id i1 i2 : k_weight_dst i1 i2 = i2. Proof. reflexivity. Qed.
-Lemma k_weight_src_id i1 i2 : k_weight_src i1 i2 = i1. Proof. reflexivity. Qed.
+Lemma k_weight_len_id n : k_weight_len n = n. Proof. unfold k_weight_len. lia. Qed.
+Lemma k_weight_reps_id w : k_weight_reps w = w. Proof. unfold k_weight_reps. lia. Qed.
+Lemma k_weight_dst_id i1 i2 : k_weight_dst i1 i2 = i2. Proof. unfold k_weight_dst. lia. Qed.
+Lemma k_weight_src_id i1 i2 : k_weight_src i1 i2 = i1. Proof. unfold k_weight_src. lia. Qed.
 Lemma k_weight_next_succ i2 : k_weight_next i2 = i2 + 1. Proof. unfold k_weight_next. lia. Qed.
 
-Lemma k_ff_init_lr p : k_ff_level_repeat_init p = 1. Proof. reflexivity. Qed.
-Lemma k_ff_init_rr p : k_ff_range_repeat_init p = p. Proof. reflexivity. Qed.
+Lemma k_ff_init_lr p : k_ff_level_repeat_init p = 1. Proof. unfold k_ff_level_repeat_init. lia. Qed.
+Lemma k_ff_init_rr p : k_ff_range_repeat_init p = p. Proof. unfold k_ff_range_repeat_init. lia. Qed.
 Lemma k_ff_range_step_div rr l : k_ff_range_step rr l = rr / l. Proof. reflexivity. Qed.
 Lemma k_ff_level_step_mul lr l : k_ff_level_step lr l = lr * l. Proof. unfold k_ff_level_step. lia. Qed.
-Lemma k_ff_lvl_count_id l : k_ff_lvl_count l = l. Proof. reflexivity. Qed.
-Lemma k_ff_lvl_elem_id j : k_ff_lvl_elem j = j. Proof. reflexivity. Qed.
-Lemma k_ff_lvl_times_id l : k_ff_lvl_times l = l. Proof. reflexivity. Qed.
-Lemma k_ff_rng_times_id l : k_ff_rng_times l = l. Proof. reflexivity. Qed.
-Lemma k_ffl_dst_id i x : k_ffl_dst i x = i. Proof. reflexivity. Qed.
-Lemma k_ffl_src_id i x : k_ffl_src i x = x. Proof. reflexivity. Qed.
+Lemma k_ff_lvl_count_id l : k_ff_lvl_count l = l. Proof. unfold k_ff_lvl_count. lia. Qed.
+Lemma k_ff_lvl_elem_id j : k_ff_lvl_elem j = j. Proof. unfold k_ff_lvl_elem. lia. Qed.
+Lemma k_ff_lvl_times_id l : k_ff_lvl_times l = l. Proof. unfold k_ff_lvl_times. lia. Qed.
+Lemma k_ff_rng_times_id l : k_ff_rng_times l = l. Proof. unfold k_ff_rng_times. lia. Qed.
+Lemma k_ffl_dst_id i x : k_ffl_dst i x = i. Proof. unfold k_ffl_dst. lia. Qed.
+Lemma k_ffl_src_id i x : k_ffl_src i x = x. Proof. unfold k_ffl_src. lia. Qed.
 
 Lemma k_replace_hit_eq old v : k_replace_hit old v = py_eq old v.
 Proof. reflexivity. Qed.
